@@ -32,6 +32,7 @@ func runC09(c *core.Ctx) {
 	ruleStringEncryptionUnconditional(c, "C09-R8")
 	ruleNoArgMutation(c, "C09-R9")    // encrypting a string must not corrupt the value for its next use
 	ruleInStreamGuards(c, "C09-R10")  // strings are encrypted under the key of the object they belong to
+	ruleUserKeyComparison(c, "C09-R12")
 	ruleCryptoConstants(c, "C09-R11") // the standard's algorithms: a conforming file's correct password must be accepted
 }
 
